@@ -49,7 +49,8 @@ func AllFeatures() GenOpts {
 var (
 	VocabExact = []string{"nav", "navbar", "navigation", "menu", "topnav", "sidenav", "breadcrumb", "breadcrumbs",
 		"site-header", "page-header", "masthead", "banner", "footer", "site-footer", "page-footer", "colophon",
-		"sidebar", "widget-area", "widget", "aside", "main-nav", "nav_bar", "Nav", "top nav dark", "has-sidebar", "footer2"}
+		"sidebar", "widget-area", "widget", "aside", "main-nav", "nav_bar", "Nav", "top nav dark", "has-sidebar", "footer2",
+		"MENU", "SideBar", "BreadCrumbs", "NavBar", "TopNav", "siteFooter"}
 	VocabNear = []string{"navigate", "canvas", "asides", "menuitem", "footnotes", "unavailable", "bannerman", "widgets",
 		"header", "footers", "enavant", "submenus", "sidebars", "mastheads", "navy"}
 	VocabNeutral = []string{"content", "article-body", "post", "intro", "c1", "lead", "wrapper", "page", "text"}
@@ -228,6 +229,7 @@ type ctx struct {
 	noMain   bool // inside article, aside, footer, header, nav: no main (HTML 4.4.14)
 	inTable  int  // table nesting
 	inLeaf   bool // inside a content element (td/li/blockquote): only what may live there
+	plain    bool // cells hold phrasing content or a paragraph only (a table inside a list item)
 }
 
 func (g *gen) el(tag string, kids ...*Node) *Node {
@@ -326,6 +328,12 @@ func (g *gen) list(c ctx, level int) *Node {
 			}
 		case g.want("chrome-in-leaf", g.o.ChromeInLeaf && g.o.Chrome, g.chance(14, "li-nav")):
 			li.Kids = append(g.inline(), g.el(g.pick([]string{"nav", "aside"}, "leafchrome"), g.el("p", g.inline()...)))
+		case g.want("li-table", g.o.Tables && c.inTable == 0 && !c.inLeaf && level == 0, g.chance(14, "li-table")):
+			// a table inside a list item (a step of a procedure with its parameters); more items follow
+			leaf := c
+			leaf.inLeaf, leaf.inTable, leaf.plain = true, 1, true
+			li.Kids = append(g.inline(), g.table(leaf))
+			items = g.int(items, 3, "itemsAfterTable")
 		default:
 			li.Kids = g.inline()
 		}
@@ -437,6 +445,15 @@ func (g *gen) table(c ctx) *Node {
 				if rs > 1 {
 					cell.Attr = append(cell.Attr, Attr{K: "rowspan", V: fmt.Sprint(rs), Q: uint8(g.int(0, 3, "q"))})
 				}
+				if cs == 1 && rs == 1 && g.o.Spans && g.chance(10, "span0") {
+					// rowspan="0": the cell spans to the end of its row group - in the group's last row that is one
+					// row; colspan="0" is read as 1 (HTML 4.9.11, "algorithm for processing rows")
+					if r+1 >= sp.rows && g.bool("rowspan0") {
+						cell.Attr = append(cell.Attr, Attr{K: "rowspan", V: "0", Q: uint8(g.int(0, 3, "q"))})
+					} else {
+						cell.Attr = append(cell.Attr, Attr{K: "colspan", V: "0", Q: uint8(g.int(0, 3, "q"))})
+					}
+				}
 				if g.chance(12, "empty-cell") && len(tr.Kids) > 0 {
 					cell.Kids = nil // an empty cell
 				} else {
@@ -458,6 +475,12 @@ func (g *gen) table(c ctx) *Node {
 }
 
 func (g *gen) cellContent(c ctx) []*Node {
+	if c.plain {
+		if g.bool("cellp") {
+			return []*Node{g.el("p", g.inline()...)}
+		}
+		return g.inline()
+	}
 	switch g.int(0, 9, "cc") {
 	case 0:
 		return []*Node{g.el("p", g.inline()...)}
